@@ -174,6 +174,64 @@ theorem stream_oversize_rejected (c : StreamCfg) (st : St) (seq : UInt32) (paylo
       rw [← hEPre, xorAt_involutive]
     simp only [hlen5, if_false, hpre, he, Bool.false_eq_true, hdecp, hbe, hget, hpad8, hc1, hc2, if_true]
 
+/-- the negation of the statement's range at its upper end, for the model of the code as it is: a payload of
+    exactly maxPacket bytes is written without error by streamPacketCipher (every stream cipher, every MAC,
+    EtM or not, also the initial `none` cipher) and rejected by a reader keyed alike -/
+theorem maxPacket_payload_rejected (c : StreamCfg) (st : St) (seq : UInt32) (payload rnd tl : Bytes)
+    (hlen : payload.length = maxPacket) (hrnd : 32 ≤ rnd.length) :
+    ∃ wire st' rnd', streamWrite c st seq payload rnd = .ok (wire, st', rnd') ∧
+      (streamRead c st seq (wire ++ tl)).res = .error .len := by
+  have hpad := streamPadLen_spec payload.length (if c.etmOn then 4 else 0) (by split <;> omega)
+  have hw := streamWrite_eq_spec c st seq payload rnd _ rfl (by omega) (by omega)
+  exact ⟨_, _, _, hw, stream_oversize_rejected c st seq payload rnd tl _ _ _ (by omega) hw⟩
+
+/-- a concrete witness against "payloads of 1..maxPacket bytes round-trip": the cipher a transport starts
+    with (`none`, no MAC), one payload of maxPacket zero bytes -/
+theorem range_counterexample :
+    ∃ (c : StreamCfg) (payload rnd wire : Bytes) (st' : St) (rnd' : Bytes),
+      c.OK ∧ 1 ≤ payload.length ∧ payload.length ≤ maxPacket ∧
+      streamWrite c ⟨0, []⟩ 0 payload rnd = .ok (wire, st', rnd') ∧
+      (streamRead c ⟨0, []⟩ 0 wire).res = .error .len := by
+  let c : StreamCfg := ⟨fun _ => 0, none, 0, false⟩
+  have hl : (zeros maxPacket).length = maxPacket := by simp [zeros]
+  obtain ⟨wire, st', rnd', hw, hr⟩ :=
+    maxPacket_payload_rejected c ⟨0, []⟩ 0 (zeros maxPacket) (zeros 32) [] hl (by simp [zeros])
+  rw [List.append_nil] at hr
+  refine ⟨c, zeros maxPacket, zeros 32, wire, st', rnd', ?_, ?_, ?_, hw, hr⟩
+  · intro m hm; simp [c] at hm
+  · rw [hl]; decide
+  · rw [hl]; exact Nat.le_refl _
+
+/-- the same at the AEAD modes' header: GCM — a written packet whose packet_length exceeds maxPacket is refused -/
+theorem gcm_oversize_rejected (c : AeadCfg) (st : St) (payload rnd tl wire : Bytes) (st' : St) (rnd' : Bytes)
+    (hover : payload.length + gcmPadLen payload.length + 1 > maxPacket) (h32 : payload.length + 32 < 4294967296)
+    (hw : gcmWrite c st payload rnd = .ok (wire, st', rnd')) :
+    (gcmRead c st (wire ++ tl)).res = .error .len := by
+  have hpad := gcmPadLen_spec payload.length
+  by_cases hr : rnd.length < gcmPadLen payload.length
+  · simp [gcmWrite, hr] at hw
+  rw [gcmWrite_eq_spec c st payload rnd (by omega)] at hw
+  simp only [Except.ok.injEq, Prod.mk.injEq] at hw
+  obtain ⟨hwire, _, _⟩ := hw
+  have hpl : (rnd.take (gcmPadLen payload.length)).length = gcmPadLen payload.length := by simp; omega
+  rw [hpl] at hwire
+  obtain ⟨pfx, hL, hL4⟩ : ∃ lb, u32be (UInt32.ofNat (payload.length + gcmPadLen payload.length + 1)) = lb ∧ lb.length = 4 :=
+    ⟨_, rfl, u32be_length _⟩
+  have hbe : (be32 pfx).toNat = payload.length + gcmPadLen payload.length + 1 := by
+    have := be32_u32be (UInt32.ofNat (payload.length + gcmPadLen payload.length + 1)) []
+    rw [List.append_nil, hL] at this
+    rw [this, ofNat_toNat_u32' _ (by omega)]
+  rw [hL] at hwire
+  subst hwire
+  unfold gcmRead
+  have h4 : ¬ (pfx ++ c.sealF st.iv pfx ([UInt8.ofNat (gcmPadLen payload.length)] ++ payload ++
+      List.take (gcmPadLen payload.length) rnd) ++ tl).length < 4 := by simp; omega
+  have htk : (pfx ++ c.sealF st.iv pfx ([UInt8.ofNat (gcmPadLen payload.length)] ++ payload ++
+      List.take (gcmPadLen payload.length) rnd) ++ tl).take 4 = pfx := by
+    rw [List.append_assoc]; exact List.take_left' hL4
+  have hbig : (be32 pfx).toNat > maxPacket := by rw [hbe]; exact hover
+  simp only [h4, if_false, htk, hbig, if_true]
+
 /-! ## GCM invocation counter, ChaCha20-Poly1305 nonce -/
 
 /-- RFC 5647 §7.1: incIV = +1 mod 2^64 on the big-endian invocation counter (bytes 4..11) -/
